@@ -191,6 +191,14 @@ def make_config(seed, tier="quick"):
             cfg["n_sends_a"] = min(cfg["n_sends_a"], 4)
             cfg["n_sends_b"] = min(cfg["n_sends_b"], 4)
             cfg["max_handles"] = 600_000
+        # session CompIDs outside ASCII: the standard header is part of what BodyLength / CheckSum count (round 13).
+        # A generator of its own, so that every other draw of a seed stays what it was.
+        r2 = random.Random(seed ^ 0xC1D5)
+        if r2.random() < 0.35:
+            cfg["comp_ids"] = r2.choice([
+                ["BANK-Z\u00dcRICH", "B\u00d6RSE"], ["\u0411\u0420\u041e\u041a\u0415\u0420", "SRV"],
+                ["CLI", "\u53d6\u5f15\u6240"], ["C\U0001d538", "S\u00e9rv\u00e9r"],
+            ])
     return cfg
 
 
